@@ -734,14 +734,33 @@ pixman_image_set_filter (pixman_image_t *      image,
     if (params == common->filter_params && filter == common->filter)
 	return TRUE;
 
-    if (filter == PIXMAN_FILTER_SEPARABLE_CONVOLUTION)
+    if (filter == PIXMAN_FILTER_CONVOLUTION)
     {
-	int width = pixman_fixed_to_int (params[0]);
-	int height = pixman_fixed_to_int (params[1]);
-	int x_phase_bits = pixman_fixed_to_int (params[2]);
-	int y_phase_bits = pixman_fixed_to_int (params[3]);
-	int n_x_phases = (1 << x_phase_bits);
-	int n_y_phases = (1 << y_phase_bits);
+	int width, height;
+
+	/* The fetchers read width * height coefficients after the header */
+	return_val_if_fail (params != NULL && n_params >= 2, FALSE);
+
+	width = pixman_fixed_to_int (params[0]);
+	height = pixman_fixed_to_int (params[1]);
+
+	return_val_if_fail (width >= 0 && height >= 0, FALSE);
+	return_val_if_fail (
+	    height == 0 || width <= (n_params - 2) / height, FALSE);
+	return_val_if_fail (n_params == 2 + width * height, FALSE);
+    }
+    else if (filter == PIXMAN_FILTER_SEPARABLE_CONVOLUTION)
+    {
+	int width, height, x_phase_bits, y_phase_bits, n_x_phases, n_y_phases;
+
+	return_val_if_fail (params != NULL && n_params >= 4, FALSE);
+
+	width = pixman_fixed_to_int (params[0]);
+	height = pixman_fixed_to_int (params[1]);
+	x_phase_bits = pixman_fixed_to_int (params[2]);
+	y_phase_bits = pixman_fixed_to_int (params[3]);
+	n_x_phases = (1 << x_phase_bits);
+	n_y_phases = (1 << y_phase_bits);
 
 	return_val_if_fail (
 	    n_params == 4 + n_x_phases * width + n_y_phases * height, FALSE);
